@@ -20,7 +20,11 @@ def register(claim):
                '<= 3 (quick) or 4 (thorough) tokens over 22 spellings.  Every (state, action) pair of the model is '
                'executed on the real code with real files for each assertion type, and random sessions of up to 30 '
                'calls are recorded and accepted or rejected line by line by Trace_RefTest.  A history-dependent change '
-               '(e.g. the table being polluted by a lookup) is rejected because the spec, not the log, carries the table.',
+               '(e.g. the table being polluted by a lookup) is rejected because the spec, not the log, carries the table.  The pytest entry '
+               'point is bound the same way: 36/240 generated projects (conftest.py importing tdda.referencetest.pytestconfig) are run as '
+               'real `python -m pytest` processes with --write-all / --write k1 k2 / k1,k2 / --wquiet / --tagged, the tests record their '
+               'own assertions, and each process is one more session for Trace_RefTest (flags become SetRegeneration lines by their '
+               'documented meaning; a following process without flags must pass on what was regenerated).',
           note=NOTE_COMMON + ' Known finding D23 (parquet round trip changes object/datetime64[s] dtypes) is listed in '
                'known_findings.json.',
           ref='DESIGN.md section 5, C10')
@@ -32,7 +36,9 @@ def register(claim):
                '<= 2 tests x tag bits x class-name selections, checks transcription = specification, and writes the case '
                'tables; the harness runs each well-shaped argv through the real scanner and (argv, module) pairs through '
                'real unittest runs of generated modules, and validates random larger runs (4 classes, inheritance, richer '
-               'flag bundles) against the specification.',
+               'flag bundles) against the specification.  The pytest collection filter (referencepytest.tagged) is judged by the same '
+               'SpecExecuted / SpecListed: 220/1800 real pytest runs (MC_ArgvSel rows and richer modules with inheritance and tagged '
+               'module-level functions) x --tagged / --istagged / node ids / -v / -x are PyRun lines of Trace_Argv.',
           note=NOTE_COMMON + ' Command lines are restricted to the WellShaped predicate of Argv.tla (DESIGN Appendix A).',
           ref='DESIGN.md section 5, C19')
     claim('C01',
